@@ -456,9 +456,7 @@ func (fr *frame) binop(x *ssa.BinOp) Val {
 		at, bt := fr.term(a), fr.term(b)
 		switch x.Op {
 		case token.ADD:
-			r := "(str_concat " + at + " " + bt + ")"
-			fr.assume(fmt.Sprintf("(= (S_len %s) %s)", r, u.idxAdd("(S_len "+at+")", "(S_len "+bt+")")))
-			return Val{t: r, typ: x.Type()}
+			return Val{t: u.strConcat(at, bt), typ: x.Type()}
 		case token.EQL:
 			return Val{t: "(= " + at + " " + bt + ")", typ: x.Type()}
 		case token.NEQ:
@@ -759,4 +757,18 @@ func (fr *frame) typeAssert(x *ssa.TypeAssert) Val {
 	ok := fmt.Sprintf("(= (i_tag %s) %d)", it, u.eng.typeID(at))
 	val := Val{t: fmt.Sprintf("(ite %s (%s (i_pay %s)) %s)", ok, ubx, it, u.zero(at)), typ: at}
 	return mk(val, ok)
+}
+
+// strConcat: a ++ b, axiomatised pointwise (length, left part, right part)
+func (u *Unit) strConcat(a, b string) string {
+	if !u.declared["ax:concat"] {
+		u.declared["ax:concat"] = true
+		m := u.mode
+		I := m.idxSort()
+		pat := ":pattern ((select (S_arr (str_concat a b)) k))"
+		u.emit("(assert (forall ((a Str) (b Str)) (! (= (S_len (str_concat a b)) %s) :pattern ((str_concat a b)))))", u.idxAdd("(S_len a)", "(S_len b)"))
+		u.emit("(assert (forall ((a Str) (b Str) (k %s)) (! (=> (and %s %s) (= (select (S_arr (str_concat a b)) k) (select (S_arr a) k))) %s)))", I, m.cmp("<=", m.idxLit(0), "k", true), m.cmp("<", "k", "(S_len a)", true), pat)
+		u.emit("(assert (forall ((a Str) (b Str) (k %s)) (! (=> (and %s %s) (= (select (S_arr (str_concat a b)) k) (select (S_arr b) %s))) %s)))", I, m.cmp("<=", "(S_len a)", "k", true), m.cmp("<", "k", u.idxAdd("(S_len a)", "(S_len b)"), true), u.idxSub("k", "(S_len a)"), pat)
+	}
+	return "(str_concat " + a + " " + b + ")"
 }
